@@ -327,9 +327,14 @@ def _gen_pq_ops(rng, kind, length):
     return ops
 
 
-def _run_pq(ctx, ops):
+def _run_pq(ctx, ops, abandon=False):
     from mouette.utils.priority_queue import PriorityQueue
     ok, q = ctx.call("init", PriorityQueue, monitor="pq_model")
+    # a newly created queue holds nothing, whatever happened to queues created (and possibly abandoned with items) before it
+    ok, e0 = ctx.call("empty", q.empty, monitor="pq_model")
+    ctx.check(bool(e0), "pq_model", "fresh_queue", "new_queue_is_not_empty", "a newly created queue does not report empty (state shared with another queue?)")
+    ok, _ = ctx.call("pop", q.pop, expect=(IndexError,), monitor="pq_model")
+    ctx.check(not ok, "pq_model", "fresh_queue", "new_queue_hands_out_an_item", "a newly created queue handed out an item that was never pushed into it")
     pending = {}  # uid -> priority
     handed = set()
     uid = 0
@@ -369,7 +374,11 @@ def _run_pq(ctx, ops):
         ok, e = ctx.call("empty", q.empty, monitor="pq_model")
         ctx.check(bool(e) == (len(pending) == 0), "pq_model", "empty", "wrong_emptiness", "empty() disagrees with the model",
                   got=e, pending=len(pending))
-    # drain: every uid comes out exactly once
+    # drain: every uid comes out exactly once (some histories abandon the queue with items still pending: queues are independent objects)
+    if abandon and pending:
+        ctx.cls("pq:abandoned_with_pending_items")
+        ctx.obs("pq_invariant", "evaluations", _contract_evals["pq"] - ev0)
+        return pops, tie_pops
     while pending:
         ok, it = ctx.call("pop", q.pop, expect=(IndexError,), monitor="pq_model")
         if not ctx.check(ok, "pq_model", "drain", "lost_item", "queue ran empty while items are still pending", pending=len(pending)):
@@ -424,6 +433,9 @@ def run_case(desc, ctx):
             ctx.obs("uf_exhaustive", "histories", n)
         elif g == "pq_random":
             ops = _gen_pq_ops(rng, desc["prio"], desc["len"])
+            # two queues alive at once: a second, short history runs on its own queue while the first is abandoned undrained
+            if rng.random() < 0.3:
+                _run_pq(ctx, _gen_pq_ops(rng, desc["prio"], 6) + [["push", 1], ["push", 0]], abandon=True)
             pops, ties = _run_pq(ctx, ops)
             if pops >= 3 and ties >= 1:
                 ctx.nontrivial({"ops": ops})
